@@ -197,6 +197,10 @@ fn match_seq(pat: &[TokenTree], input: &[TokenTree], b: &mut Bindings) -> Option
 }
 
 fn transcribe(body: TokenStream, b: &Bindings) -> Result<TokenStream, String> {
+    transcribe_h(body, b, &[])
+}
+
+fn transcribe_h(body: TokenStream, b: &Bindings, rename: &[String]) -> Result<TokenStream, String> {
     let v = tts(body);
     let mut out: Vec<TokenTree> = vec![];
     let mut i = 0;
@@ -217,10 +221,14 @@ fn transcribe(body: TokenStream, b: &Bindings) -> Result<TokenStream, String> {
                 _ => return Err("unsupported `$` form in transcriber".into()),
             },
             TokenTree::Group(g) => {
-                let inner = transcribe(g.stream(), b)?;
+                let inner = transcribe_h(g.stream(), b, rename)?;
                 let mut ng = Group::new(g.delimiter(), inner);
                 ng.set_span(g.span());
                 out.push(TokenTree::Group(ng));
+                i += 1;
+            },
+            TokenTree::Ident(id) if rename.contains(&id.to_string()) => {
+                out.push(TokenTree::Ident(Ident::new(&format!("{}_vxh", id), id.span())));
                 i += 1;
             },
             t => {
@@ -280,15 +288,15 @@ pub fn expand(def: &MacroDef, input: TokenStream) -> Result<TokenStream, String>
                 for ts in b.values() {
                     idents_of(ts, &mut used);
                 }
+                // macro hygiene: a binder of the template that collides with a name used in an argument is a DIFFERENT
+                // variable in Rust; model it by renaming the template's own occurrences (never the substituted arguments)
+                let mut rename: Vec<String> = vec![];
                 for i in &introduced {
-                    if used.contains(i) {
-                        return Err(format!(
-                            "macro {}!: argument mentions `{}`, which the macro body binds (hygiene not modelled)",
-                            def.name, i
-                        ));
+                    if used.contains(i) && !rename.contains(i) {
+                        rename.push(i.clone());
                     }
                 }
-                return transcribe(body.clone(), &b);
+                return transcribe_h(body.clone(), &b, &rename);
             }
         }
     }
